@@ -13,13 +13,13 @@ use serde_json::json;
 
 pub fn run(ctx: &Ctx) -> i32 {
     let mon = Mon::new();
-    let n = ctx.tier.pick(640, 9600);
+    let n = ctx.tier.pick(4000, 20000);
     par_cases(ctx, &mon, "hist", n, |cc, rng, l| {
         let case = HistCase::random(rng, ctx.tier.pick(12, 40), ctx.tier.pick(12, 64), 8, false);
         run_case(cc, &case, rng, l);
     });
     // structured families + large batches
-    let big = ctx.tier.pick(4, 48);
+    let big = ctx.tier.pick(12, 64);
     par_cases(ctx, &mon, "big", big, |cc, rng, l| {
         let case = HistCase::big(rng, ctx.tier.pick(200, 1000));
         run_case(cc, &case, rng, l);
